@@ -58,20 +58,21 @@ func Hex(b []byte) string { return "\"" + hex.EncodeToString(b) + "\"" }
 
 // Out collects what a harness run reports to bin/check.
 type Out struct {
-	Engine     string            `json:"engine"`
-	Seed       int64             `json:"seed"`
-	Cases      []string          `json:"cases"`      // Coq terms, one per case
-	Replays    []json.RawMessage `json:"replays"`    // same cases, JSON, index-aligned
-	Stats      map[string]int    `json:"stats"`      // input distribution
-	Monitor    []MonitorFail     `json:"monitor"`    // property failures seen on the implementation
-	Notes      []string          `json:"notes"`
-	Extra      map[string]any    `json:"extra,omitempty"`
+	Engine  string            `json:"engine"`
+	Seed    int64             `json:"seed"`
+	Cases   []string          `json:"cases"`   // Coq terms, one per case
+	Replays []json.RawMessage `json:"replays"` // same cases, JSON, index-aligned
+	Stats   map[string]int    `json:"stats"`   // input distribution
+	Monitor []MonitorFail     `json:"monitor"` // property failures seen on the implementation
+	Notes   []string          `json:"notes"`
+	Extra   map[string]any    `json:"extra,omitempty"`
 }
 
 type MonitorFail struct {
-	Case   int    `json:"case"`
-	What   string `json:"what"`
-	Known  string `json:"known,omitempty"`
+	Case  int      `json:"case"`
+	What  string   `json:"what"`
+	Known string   `json:"known,omitempty"`
+	Tags  []string `json:"tags,omitempty"`
 }
 
 func NewOut(engine string) *Out {
